@@ -221,6 +221,24 @@ __CPROVER_ensures(__CPROVER_was_freed(ptr_ptr_world))
 void h_release_world(void) { void *p; release_world(p); REACHABLE(); }
 #endif
 
+#if defined(UNIT_cpp_ctor)
+/* WorldBuilderWrapper(filename, has_output_dir, output_dir, seed): one World is constructed with exactly these arguments (and
+ * limit_debug_consistency_checks at its default true) and becomes the world behind the handle */
+unsigned long g_fileh, g_dirh;
+struct World World_ctor__contract(struct wb_string filename, _Bool has_output_dir, struct wb_string *output_dir, unsigned long random_number_seed, _Bool limit_debug_consistency_checks_)
+__CPROVER_requires(g_calls == 0 && filename.h == g_fileh && has_output_dir == g_has && output_dir->h == g_dirh && random_number_seed == g_seed && limit_debug_consistency_checks_ == 1)
+__CPROVER_assigns(g_calls, wb_thrown)
+__CPROVER_ensures(g_calls == 1 && IS_BOOL(wb_thrown) && __CPROVER_return_value.MPI_RANK == g_token)
+;
+struct wrapper_cpp_WorldBuilderWrapper cpp_ctor__contract(struct wb_string filename, _Bool has_output_dir, struct wb_string *output_dir, unsigned long random_number_seed)
+__CPROVER_requires(g_calls == 0 && wb_thrown == 0 && filename.h == g_fileh && has_output_dir == g_has && output_dir->h == g_dirh && random_number_seed == g_seed)
+__CPROVER_assigns(g_calls, wb_thrown)
+__CPROVER_ensures(!wb_thrown ==> (g_calls == 1 && __CPROVER_return_value.ptr_ptr_world != 0 && ((struct World *)__CPROVER_return_value.ptr_ptr_world)->MPI_RANK == g_token))
+;
+void h_cpp_ctor(void) { struct wb_string f, d; _Bool has; unsigned long seed; HAVOC(g_fileh); HAVOC(g_dirh); HAVOC(g_has); HAVOC(g_seed); HAVOC(g_token);
+  cpp_ctor(f, has, &d, seed); REACHABLE(); }
+#endif
+
 /* ------------------------------------------------------------------ C++ wrapper class */
 #if defined(UNIT_cpp_temperature_2d) || defined(UNIT_cpp_temperature_3d) || defined(UNIT_cpp_composition_2d) || defined(UNIT_cpp_composition_3d)
 #if defined(UNIT_cpp_temperature_2d)
